@@ -316,6 +316,10 @@ pub fn run_program(b: &Value, id: u64) -> RunOut {
         if let St::Parked(tag) = &st[t] {
             if *tag == "sync.lock" {
                 in_maint = Some(t);
+            } else if *tag == "m.end" && in_maint == Some(t) {
+                // this step publishes the counters and releases the mutex: the thread's next
+                // park is outside maintenance even if its tag is sync.lock again (a following sync())
+                in_maint = None;
             }
         }
         steps += 1;
